@@ -18,7 +18,9 @@ func init() {
 	core.Register("C15", "model_checking", runC15)
 }
 
-func testdataDir() string { return filepath.Join(core.VerifDir, "harness", "checks", "gencli", "testdata") }
+func testdataDir() string {
+	return filepath.Join(core.VerifDir, "harness", "checks", "gencli", "testdata")
+}
 
 const c15Timestamp = "301822800"
 
